@@ -196,7 +196,8 @@ def install_cli(reg):
 TERM_READERS = ("_read_byte", "_read_bytes", "_read_number", "_read_uint32", "_read_uint64", "read")
 # loops whose termination argument is outside the rules of pyvc/term.py: reported as NOT decided (never counted as proved)
 TERM_UNPROVEN = set()
-# loops proved by the advance rule: index stores are `+= k` or the next index returned by a contracted callee
+# loops proved by the advance rule: index stores are `+= k` or the next index returned by a contracted callee (the callee's postcondition
+# `None or next index beyond the first argument` is an obligation of the same run: ..._extract_word_date_header/ensures#None-or-next-index-beyond-first-argument)
 TERM_ADVANCERS = {("pdf_extractor.py", "_TableExtractor._extract", 0): {"_extract_word_date_header"}}
 
 
@@ -349,11 +350,14 @@ EXTRA = EXTRA + [_prs.validate_model]
 
 BOUNDED = ["regex patterns whose position automaton has EDA are decided by a BOUNDED pumping experiment on CPython's matcher (decreases#regex-eda-pump-*: "
            "k <= 100 pumps, every witness cycle x 13 suffixes x the match modes the module uses; pristine: rtf_extractor._RE_PICT); polynomial backtracking of high degree is not decided",
-           "termination NOT decided for: pdf_extractor._TableExtractor._extract while-0 (125-line line classifier, more than 4000 paths per iteration; "
-           "its index advances by `idx += 1` or to the `next_idx` returned by _extract_word_date_header, which is not under contract); `for` loops: "
-           "decreases#for-loops-finite shows per file that no loop iterates an infinite constructor or grows its own iterable, finiteness of third-party "
-           "iterables (ElementTree, zipfile, xlrd, olefile, pypdf) is assumed; recursion: CPython bounds the depth (RecursionError is an Exception subclass, "
-           "which the exceptional-postcondition obligations already admit at every call), structural descent over finite trees (TREE-FINITE) is not discharged"]
+           "termination, what is NOT discharged: `for` loops -- decreases#for-loops-finite shows per file that no loop iterates an infinite constructor or grows its own "
+           "iterable; finiteness of third-party iterables (ElementTree, zipfile, xlrd, olefile, pypdf) is assumed.  Recursion (round 7): every directly or mutually "
+           "recursive function has a DISCHARGED structural-descent obligation (decreases#recursion-descends-into-a-proper-part / #mutual-recursion-...: each recursive "
+           "call passes a proper part of the caller's argument); finiteness and acyclicity of the trees handed in (TREE-FINITE) stay assumed.  One function is NOT a "
+           "structural descent and is only bounded by the interpreter: pdf_extractor._color_space_name follows `get_object()` of a PDF reference, which may resolve to "
+           "its own container (linear recursion: at most sys.getrecursionlimit() frames, then a RecursionError the callers' exceptional postconditions admit) -- bounded-ok, not proved",
+           "cli._build_parser is verified against an ASSUMED MODEL of argparse's declaration checks; the model is validated natively on a finite case list "
+           "(cli.py::argparse/model-validation#...BOUNDED: 19 cases), never counted as proved"]
 
 EXECUTOR_KW = {}
 for _rel, _fn in registered_extractors():
@@ -373,8 +377,17 @@ class C01Executor(_lg.LoggingMixin, _rf.ReadFileExecutor):
 EXECUTOR = C01Executor
 
 TRUSTED = ["third-party parsers terminate (their exceptions are covered by EXC-ANY)",
-           "CPython's `re` explores at most the paths of the pattern's position automaton (so: polynomially many for a pattern without EDA)"]
-ASSUMED_MODELS = ["time.perf_counter/time.time: total, return a float"]
+           "CPython's `re` explores at most the paths of the pattern's position automaton (so: polynomially many for a pattern without EDA)",
+           "TREE-FINITE: the trees the recursive functions walk (ElementTree / html node trees built by a parser from a finite document, JSON-like values, dataclass "
+           "instances) are finite and acyclic, and iteration / subscript / field access / find / findall / values / items yield strict parts of them",
+           # round 7: the router / mime functions are verified here on their real bodies, with the models of the C07 pack
+           "os.path.splitext axioms A1-A3, mimetypes.guess_type total and deterministic, importlib.import_module succeeds for registry modules (router contracts, shared with C07)",
+           "argparse: ArgumentParser(**kw) is total for keywords of its signature; add_argument raises exactly on the declaration errors modelled in contracts/c01_parser.py; "
+           "parse_known_args raises only SystemExit when every `type=` converter fails with TypeError / ValueError only"]
+ASSUMED_MODELS = ["time.perf_counter/time.time: total, return a float",
+                  "os.path.splitext (uninterpreted, axioms A1-A3); mimetypes.guess_type (uninterpreted: any MIME database); str.lower (uninterpreted, idempotent); "
+                  "importlib.import_module + getattr (function identity = (module, name))",
+                  "argparse.ArgumentParser / add_argument / add_mutually_exclusive_group / add_argument_group (declaration checks of CPython 3.9-3.13; validated natively, bounded)"]
 ASSUMPTIONS = ["EXC-ANY: un-contracted calls may raise any Exception subclass (BaseException-only classes such as KeyboardInterrupt, and MemoryError/RecursionError from resource exhaustion, are not modelled: PY-MEM)",
                "PY-GEN: generator consumer may stop after any prefix", "logger calls dropped (PY-LOG)",
                "PY-LOGGING (cli.main): a log record of any logger reaches stderr unless the ROOT logger has a handler (the code adds a quiet one, or the embedding "
